@@ -295,6 +295,9 @@ func (w *ethWorld) apply(op kernel.Op) {
 		if w.host.InBlock {
 			return
 		}
+		if (int64(w.host.Height)+op.Arg(0))%3 == 1 {
+			genfault.Restart(w.rec, w.host, "eth")
+		}
 		genfault.Run(w.rec, w.host, int64(w.host.Height)+op.Arg(0))
 		for _, is := range w.host.ModuleRoundTrip() {
 			w.rec.Violate("C13", "roundtrip", "eth:"+is.Key, "eth world: %s", is.Detail)
